@@ -1,5 +1,6 @@
 import BeffVerif.Model.Sha256
 import BeffVerif.Model.Hash
+import BeffVerif.Model.Schema
 /-!
 The canonical token stream of `hash256(ctx)` of every `*Runtype` class (codegen-v2.ts) and `ParserFromRuntype.hash256`.
 
@@ -80,7 +81,7 @@ def h256 (env : Env) : Nat → RT → List (String × Nat) → Nat → Option (L
     | .nullish _ => some [.tag "nullish"]
     | .never => some [.tag "never"]
     | .const v => (constToks v).map fun ts => .tag "const" :: ts
-    | .regex _ d => some [.tag "regex", .str d]
+    | .regex tpl _ => some [.tag "regex", .str (regexSource tpl), .str ""]   -- source and flags (fix D81)
     | .date => some [.tag "date"]
     | .bigint => some [.tag "bigint"]
     | .typed c => some [.tag "typedArray", .str c]
